@@ -9,7 +9,7 @@ import (
 
 func init() {
 	register(&Property{ID: "C11", Run: runC11,
-		Explain: "RPC splitting decided as exhaustiveness, grow-then-check discipline and gating: (R11.1) on the slow path of RPC.split every wire field of pb.RPC and pb.ControlMessage (enumerated from the struct tags on every run) is both read from the receiver and stored into the fragment being built; sub-messages rebuilt for a new fragment keep their non-split fields (every ControlIHave literal carries the TopicID of the IHAVE being split); copyRPC copies the whole struct and the control message; (R11.2) in the gossipsub router queue pushes happen only in doSendRPC, which is called only by sendRPC; (R11.3) sendRPC sends an RPC unsplit only behind `Size() < maxMessageSize` evaluated after all piggybacking, sends a fragment only behind the false edge of `Size() > maxMessageSize`, drops (and reports) on the true edge, and splits with the same limit; (R11.4) doDropRPC traces DROP_RPC and re-queues the control part; (R11.5) grow-then-check: every statement that adds content to the fragment (append / set) is followed on every path by a `Size() > limit` test before the next growth or yield, the overflow branch removes exactly what was added, yields, and restarts the fragment with that element; every yield result is honoured; a non-empty remainder is yielded at the end. NOT decided: that fragments fit the limit and carry each element exactly once and in order as an arithmetic fact per input (Size() arithmetic and slice bookkeeping).",
+		Explain: "RPC splitting decided as exhaustiveness, grow-then-check discipline and gating: (R11.1) on the slow path of RPC.split every wire field of pb.RPC and pb.ControlMessage (enumerated from the struct tags on every run) is both read from the receiver and stored into the fragment being built; sub-messages rebuilt for a new fragment keep their non-split fields (every ControlIHave literal carries the TopicID of the IHAVE being split); copyRPC copies the whole struct and the control message; (R11.2) in the gossipsub router queue pushes happen only in doSendRPC, which is called only by sendRPC; (R11.3) sendRPC sends an RPC unsplit only behind `Size() < maxMessageSize` evaluated after all piggybacking, sends a fragment only behind the false edge of `Size() > maxMessageSize`, drops (and reports) on the true edge, and splits with the same limit; (R11.4) doDropRPC traces DROP_RPC and re-queues the control part; (R11.5) grow-then-check: every statement that adds content to the fragment (append / set) is followed on every path by a `Size() > limit` test before the next growth or yield, the overflow branch removes exactly what was added, yields, and restarts the fragment with that element; every yield result is honoured; a non-empty remainder is yielded at the end; (R11.6) no empty RPC is produced: every direct call of the iterator's consumer is evaluated only when the fragment's Size() is not zero; (R11.3, extended) inside the split loop sendRPC drops exactly the oversized fragment (never the RPC being split, whose control part the lazy iterator is still reading) and the loop over the fragments has no early exit. NOT decided: that fragments fit the limit and carry each element exactly once and in order as an arithmetic fact per input (Size() arithmetic and slice bookkeeping).",
 		Assume:  []string{"gogo-generated Size() is exact", "struct tags `protobuf:` mark exactly the wire fields"},
 		Mutants: []Mutant{
 			{Name: "split-drops-idontwant", File: "pubsub.go", Old: "\t\t\tfor _, idontwant := range ctl.GetIdontwant() {", New: "\t\t\tfor _, idontwant := range []*pb.ControlIDontWant(nil) {", Expect: "R11.1"},
@@ -19,9 +19,12 @@ func init() {
 			{Name: "heartbeat-pushes-directly", File: "gossipsub.go", Old: "\tfor p, ihave := range gs.gossip {\n\t\tdelete(gs.gossip, p)\n\t\tout := rpcWithControl(nil, ihave, nil, nil, nil, nil)\n\t\tgs.sendRPC(p, out, false)", New: "\tfor p, ihave := range gs.gossip {\n\t\tdelete(gs.gossip, p)\n\t\tout := rpcWithControl(nil, ihave, nil, nil, nil, nil)\n\t\tif q, ok := gs.p.peers[p]; ok {\n\t\t\tgs.doSendRPC(out, p, q, false)\n\t\t}", Expect: "R11.2"},
 			{Name: "sendrpc-size-before-piggyback", File: "gossipsub.go", Old: "\t// do we own the RPC?\n\town := false\n", New: "\t// do we own the RPC?\n\town := out.Size() > gs.p.maxMessageSize\n", Expect: "R11.3-pre"},
 			{Name: "sendrpc-le-limit", File: "gossipsub.go", Old: "\tif out.Size() < gs.p.maxMessageSize {\n\t\tgs.doSendRPC(out, p, q, urgent)", New: "\tif out.Size() <= gs.p.maxMessageSize+1 {\n\t\tgs.doSendRPC(out, p, q, urgent)", Expect: "R11.3"},
-			{Name: "sendrpc-oversized-fragment-sent", File: "gossipsub.go", Old: "\t\t\tgs.doDropRPC(out, p, fmt.Sprintf(\"Dropping oversized RPC. Size: %d, limit: %d. (Over by %d bytes)\", rpc.Size(), gs.p.maxMessageSize, rpc.Size()-gs.p.maxMessageSize))\n\t\t\tcontinue\n", New: "\t\t\tgs.doDropRPC(out, p, fmt.Sprintf(\"Dropping oversized RPC. Size: %d, limit: %d. (Over by %d bytes)\", rpc.Size(), gs.p.maxMessageSize, rpc.Size()-gs.p.maxMessageSize))\n", Expect: "R11.3"},
+			{Name: "sendrpc-oversized-fragment-sent", File: "gossipsub.go", Old: "\t\t\tgs.doDropRPC(&rpc, p, fmt.Sprintf(\"Dropping oversized RPC. Size: %d, limit: %d. (Over by %d bytes)\", rpc.Size(), gs.p.maxMessageSize, rpc.Size()-gs.p.maxMessageSize))\n\t\t\tcontinue\n", New: "\t\t\tgs.doDropRPC(&rpc, p, fmt.Sprintf(\"Dropping oversized RPC. Size: %d, limit: %d. (Over by %d bytes)\", rpc.Size(), gs.p.maxMessageSize, rpc.Size()-gs.p.maxMessageSize))\n", Expect: "R11.3"},
 			{Name: "split-other-limit", File: "gossipsub.go", Old: "\tfor rpc := range out.split(gs.p.maxMessageSize) {", New: "\tfor rpc := range out.split(gs.p.maxMessageSize * 2) {", Expect: "R11.3"},
 			{Name: "dropRPC-no-retry", File: "gossipsub.go", Old: "\tctl := rpc.GetControl()\n\tif ctl != nil {\n\t\tgs.pushControl(p, ctl)\n\t}\n}", New: "}", Expect: "R11.4"},
+			{Name: "split-yields-empty", File: "pubsub.go", Old: "\t\tyield := func(r RPC) bool { return r.Size() == 0 || yieldRPC(r) }", New: "\t\tyield := func(r RPC) bool { return yieldRPC(r) }", Expect: "R11.6"},
+			{Name: "drop-whole-rpc", File: "gossipsub.go", Old: "\t\t\tgs.doDropRPC(&rpc, p, fmt.Sprintf(\"Dropping oversized", New: "\t\t\tgs.doDropRPC(out, p, fmt.Sprintf(\"Dropping oversized", Expect: "R11.3"},
+			{Name: "drop-ends-iteration", File: "gossipsub.go", Old: "rpc.Size()-gs.p.maxMessageSize))\n\t\t\tcontinue\n", New: "rpc.Size()-gs.p.maxMessageSize))\n\t\t\treturn\n", Expect: "R11.3"},
 			{Name: "split-control-header-unchecked", File: "pubsub.go", Old: "\t\t\t\tnextRPC.Control = &pb.ControlMessage{}\n\t\t\t\tif nextRPC.Size() > limit {\n\t\t\t\t\tnextRPC.Control = nil\n\t\t\t\t\tif !yield(nextRPC) {\n\t\t\t\t\t\treturn\n\t\t\t\t\t}\n\t\t\t\t\tnextRPC = RPC{RPC: pb.RPC{Control: &pb.ControlMessage{}}, from: rpc.from}\n\t\t\t\t}\n", New: "\t\t\t\tnextRPC.Control = &pb.ControlMessage{}\n", Expect: "R11.5"},
 			{Name: "split-graft-overflow-keeps-element", File: "pubsub.go", Old: "\t\t\t\t\tnextRPC.Control.Graft = nextRPC.Control.Graft[:len(nextRPC.Control.Graft)-1]\n", New: "", Expect: "R11.5"},
 			{Name: "split-prune-restart-loses-element", File: "pubsub.go", Old: "\t\t\t\t\tnextRPC = RPC{RPC: pb.RPC{Control: &pb.ControlMessage{}}, from: rpc.from}\n\t\t\t\t\tnextRPC.Control.Prune = append(nextRPC.Control.Prune, prune)\n", New: "\t\t\t\t\tnextRPC = RPC{RPC: pb.RPC{Control: &pb.ControlMessage{}}, from: rpc.from}\n", Expect: "R11.5"},
@@ -61,7 +64,7 @@ func runC11(c *RuleCtx) {
 		g := p.Graph(lit)
 		// the fragment variable: the argument of yield
 		var frag types.Object
-		yields := p.Sites(lit, false, "var:yield")
+		yields := p.YieldSites(lit)
 		for _, y := range yields {
 			if id, ok := unparen(y.Call.Args[0]).(*ast.Ident); ok {
 				frag = lit.Info().Uses[id]
@@ -113,7 +116,7 @@ func runC11(c *RuleCtx) {
 				// the first return that is not inside an `if !yield(...)`
 				par := p.parents[p.parents[r]]
 				if is, ok := par.(*ast.IfStmt); ok {
-					if cv := p.R(lit).Val(is.Cond); cv.Has(func(v *V) bool { return v.IsCall("var:yield") }) {
+					if cv := p.R(lit).Val(is.Cond); cv.Has(isYieldCall(yields)) {
 						return true
 					}
 				}
@@ -188,7 +191,7 @@ func runC11(c *RuleCtx) {
 				}
 				for x := p.parents[r]; x != nil; x = p.parents[x] {
 					if is, ok := x.(*ast.IfStmt); ok {
-						if p.R(lit).Val(is.Cond).Has(func(v *V) bool { return v.IsCall("var:yield") }) {
+						if p.R(lit).Val(is.Cond).Has(isYieldCall(yields)) {
 							return true
 						}
 					}
@@ -411,7 +414,7 @@ func runC11(c *RuleCtx) {
 					}
 				}
 				ast.Inspect(st, func(x ast.Node) bool {
-					if ce, ok := x.(*ast.CallExpr); ok && p.CalleeName(lit.Info(), ce) == "var:yield" {
+					if ce, ok := x.(*ast.CallExpr); ok && isYieldCall(yields)(&V{Kind: "call", Node: ce}) {
 						yielded = true
 					}
 					return true
@@ -536,6 +539,52 @@ func runC11(c *RuleCtx) {
 				lastNonEmpty = false
 			}
 		}
+		// R11.6 no empty RPC is produced: every direct call of the consumer is evaluated only when the fragment's
+		// Size() is not zero — by a dominating test, or as the right operand of `Size() == 0 ||` / `Size() > 0 &&`
+		{
+			nonEmptyOf := func(fn *Func, arg ast.Expr) Atom {
+				av := p.R(fn).Val(arg)
+				return AtomCmp("fragment.Size() == 0", func(v *V) bool {
+					return (v.IsCall("pb.(*RPC).Size") || v.IsCall("(*RPC).Size")) && len(v.Args) == 1 && v.Args[0].Equal(av)
+				}, "==", isZero)
+			}
+			cc := p.ConsumerCalls(lit)
+			if len(cc) == 0 {
+				c.Undecided("R11.6", split.Name, "consumer calls", split.Decl, "no call of the iterator's consumer found")
+			}
+			for i, cs := range cc {
+				if len(cs.Call.Args) != 1 {
+					continue
+				}
+				empty := nonEmptyOf(cs.Fn, cs.Call.Args[0])
+				guarded, why := p.DomAny(cs.Fn, cs.Call, AtomWant{empty, false})
+				if !guarded {
+					for x := p.parents[ast.Node(cs.Call)]; x != nil; x = p.parents[x] {
+						be, ok := x.(*ast.BinaryExpr)
+						if !ok {
+							if _, isExpr := x.(ast.Expr); isExpr {
+								continue
+							}
+							break
+						}
+						if !within(cs.Call, be.Y) {
+							continue
+						}
+						okm, sense := matchN(p.Graph(cs.Fn), empty, be.X)
+						// a || b evaluates b only when a is false; a && b only when a is true
+						if okm && ((be.Op.String() == "||" && sense) || (be.Op.String() == "&&" && !sense)) {
+							guarded = true
+						}
+					}
+				}
+				suffix := ""
+				if i > 0 {
+					suffix = "#" + itoa(i+1)
+				}
+				c.Check(guarded, "R11.6", split.Name, "consumer called only with a non-empty RPC"+suffix, cs.Call, "guarded by Size() != 0", "an empty RPC can be handed to the consumer (it would be queued and sent): in front of an element that cannot fit by itself the accumulated fragment is empty: "+why)
+			}
+			c.Min["R11.6"] = 1
+		}
 		c.Check(lastNonEmpty, "R11.5", split.Name, "non-empty remainder yielded at the end", split.Decl, "final `if Size() > 0 { yield }`", "the last fragment is not yielded (its contents are lost) or an empty RPC can be yielded")
 	} else if split != nil {
 		c.Undecided("R11.1", split.Name, "iterator closure", split.Decl, "split no longer returns a single function literal")
@@ -604,12 +653,41 @@ func runC11(c *RuleCtx) {
 					okd, _ := g.MustPass(EdgeTarget(e), PassOpts{Until: p.iterationUntil(f, cs.Call)}, p.callPred(f, "(*GossipSubRouter).doDropRPC"))
 					c.Check(okd, "R11.3", f.Name, "oversized fragment dropped and reported", condNodeOf(e), "doDropRPC", "an oversized fragment is neither sent nor reported as dropped")
 				}
+				// what is dropped is the fragment, not the RPC being split: doDropRPC re-queues and strips the control part of
+				// its argument, and the lazy split iterator is still reading the original
+				for _, l := range p.EnclosingLoops(cs.Call) {
+					for _, ds := range p.Sites(f, false, "(*GossipSubRouter).doDropRPC") {
+						if !within(ds.Call, l) || len(ds.Call.Args) < 1 {
+							continue
+						}
+						av := p.R(f).Val(ds.Call.Args[0])
+						isFrag := (av.Kind == "rangekey" || av.Kind == "rangeval") && av.Args[0].IsCall("(*RPC).split")
+						// &rpc: the loop variable of the range over split (its address is taken, so it does not resolve)
+						if rs, ok := l.(*ast.RangeStmt); ok && !isFrag && p.R(f).Val(rs.X).IsCall("(*RPC).split") {
+							arg := unparen(ds.Call.Args[0])
+							if u, ok := arg.(*ast.UnaryExpr); ok && u.Op.String() == "&" {
+								arg = unparen(u.X)
+							}
+							if id, ok := arg.(*ast.Ident); ok {
+								for _, kv := range []ast.Expr{rs.Key, rs.Value} {
+									if kid, ok := kv.(*ast.Ident); ok && f.Info().Uses[id] != nil && f.Info().Uses[id] == f.Info().Defs[kid] {
+										isFrag = true
+									}
+								}
+							}
+						}
+						c.Check(isFrag, "R11.3", f.Name, "the dropped RPC is the oversized fragment", ds.Call, av.String(), "inside the split loop doDropRPC is handed "+av.String()+" instead of the fragment: the whole RPC is reported dropped, its IHAVE/IWANT/IDONTWANT are stripped while later fragments are still being built from it (they are lost) and its GRAFT/PRUNE are queued for retry although later fragments still carry them (duplicated)")
+					}
+				}
 				// the loop ranges over split(maxMessageSize) of the RPC being sent
 				for _, l := range p.EnclosingLoops(cs.Call) {
 					if r, ok := l.(*ast.RangeStmt); ok {
 						rv := p.R(f).Val(r.X)
 						okl := rv.IsCall("(*RPC).split") && len(rv.Args) == 2 && maxF(rv.Args[1])
 						c.Check(okl, "R11.3", f.Name, "split with the configured limit", r, rv.String(), "split is called with "+rv.String())
+						// every fragment is considered: dropping one that cannot fit must not end the iteration
+						early, at := LoopHasEarlyExit(r)
+						c.Check(!early, "R11.3", f.Name, "every fragment of the split is considered", r, "the loop over the fragments has no early exit", "the loop over the fragments can be left early at "+p.Pos(at)+": the fragments after it (which would fit) are never queued")
 					}
 				}
 				_ = arg
